@@ -10,7 +10,6 @@ ENGINES = [
 PENDING = 'not yet claimed: machinery for this property is still being built (see DESIGN.md §10 build order)'
 NOT_APPLICABLE = {
     'C03': 'Whole-trace property (every row of the finalised main + auxiliary trace satisfies every constraint and boundary assertion). Both sides are under contract separately and meet in the hub - C04 pins each stack constraint to its documented polynomial, C05/C07/C13 pin each operation\'s next state, helper registers and decoder rows - but the composition runs through finalize_trace / into_trace / fill_trace and the aux-column builders (column transposition over Vec<Vec<Felt>>, iterator chains, closures, hasher/bitwise/range chiplet tables, random rows), which are outside the subset the extraction can bring to Verus; no function contract within reach states "for all rows of the finished trace". A bounded prove-and-verify run would be a different technique. Not claimed.',
-    'C11': 'The assembler core (ProcedureCache / ModuleProvider over BTreeMap, AssemblyContext call-set bookkeeping, generic validate_param<I, R: RangeBounds>, string-keyed lookups, closures) is outside the Verus subset; history-independence and call-set closure are whole-history properties of that state. The two defects found in this area (F2 local index with 0 locals, F14 call inside a syscall) were found by contract attempts / reading and repaired; what the assembler emits for each instruction is decided under C05 (unit masm_instr*) and C06 (bounded lowering). A bounded compile-twice harness alone would be a different technique. Not claimed.',
     'C12': 'Multiset balance of all lookups is a whole-trace algebraic identity over running-product / LogUp columns for every challenge; the aux-trace builders (processor/src/*/aux_trace) are iterator/closure code over whole columns and the AIR of this version does not constrain most of these columns. No per-function contract within reach expresses it. Not claimed.',
     'C18': 'truncate_stack, memcopy, pipe_* and the SMT / MMR procedures are loops over memory with hperm / mtree_* / advice-map operations; the MAST-lemma engine (E2) handles straight-line spans and splits over the field / u32 / stack operations only (no loop invariants over exec_rel at the masm level, no hasher or Merkle-store model). Not claimed.',
     'C17': 'BLAKE3/SHA-256/Keccak-256 masm programs (800-3500 straight-line u32 ops) vs reference functions is a full bit-vector equivalence of compression functions; no function contract within reach of Verus/Z3 or Kani decides it (DESIGN §7 C17)',
@@ -22,6 +21,13 @@ META = {
         'design_ref': '§7 C19/C10, §11',
         'level_text': 'Deductive proof for all values: StackInputs and StackOutputs decode(encode(x)) == x, consuming exactly the bytes written (any trailing bytes untouched); encoders follow the documented grammar; HashFunction tags map back. Instruction codec, all 230 variants and every payload: the encoder writes enc_instr(x), and every byte string the decoder accepts is enc_instr(of the instruction it returns) followed by the unread rest - a decoder arm that returns another variant, reads another width or order cannot verify. Bounded (1626 cases): parser-produced program / module ASTs for every instruction form and container shape, MaslLibrary files and the core data types round-trip to equal objects, identical bytes and the same MAST root.',
         'level_note': 'Not proved deductively: decoder completeness on the instruction codec (accepts every enc_instr(x)), the AST container / library codecs (string / Vec / BTreeMap code) and recompilation - covered by the bounded stand-in ast_roundtrip only (labelled bounded). Sub-codecs of instruction payloads (Felt, ProcedureId, RpoDigest, AdviceInjectorNode, DebugOptions) are assumed.',
+    },
+    'C11': {
+        'engine': 'E1 verus-extract',
+        'technique': 'Verus contracts on the assembler\'s real validation functions (local index, caller context, zero divisor, exponent width) for every parameter value; bounded stand-in (real assembler + processor on a generated family) for history / library-order / re-export independence, call-set closure and the table of invalid sources',
+        'design_ref': '§11',
+        'level_text': 'Deductive proof (all parameter values): a local index is rejected exactly when it is not below the procedure\'s number of locals, `caller` exactly outside a kernel, div.0 and exponent widths above 64 exactly, nothing is appended to the span on rejection and none of these functions can panic. Bounded (6060 generated programs over 4 libraries and a kernel, 545 invalid / boundary sources, ~170 parameter-range sources): same MAST root and code block table whatever the assembler compiled before, in every library order and through re-exports; every assembled program executes without a missing procedure; invalid sources give an error - except for the open known findings F44-F47, F50 (procedure-cache history dependence, syscall / caller acceptance paths, a valid wrapper rejected) and F34.',
+        'level_note': 'PARTIAL claim: the clauses about history independence and self-containment are whole-history properties of the assembler\'s cache / context state (BTreeMap, string keys, closures) that no function contract within reach expresses; they are covered by the bounded stand-in only, labelled bounded and never counted as proved.',
     },
     'C14': {
         'engine': 'E1 verus-extract',
